@@ -83,6 +83,19 @@ def gen(tier, rng):
                 for v in sorted(vals):
                     w = [(v >> i) & 1 for i in range(n - 1, -1, -1)]
                     cases.append(mk_case(rng, [("%s.%d" % (cont, n), w), ("b", [1]), ("ue", codeword_bits(3, 5))], off, kinds[(n + off) % 4]))
+    # 5b. read_to of whole primitives, aligned and unaligned, across chunk boundaries / escapes / the end
+    for op, nb in (("t8", 1), ("t16", 2), ("t32", 4)):
+        for off in (0, 3, 8, 16):
+            for rep in range(12 if tier == "quick" else 120):
+                items = []
+                for j in range(rng.randrange(1, 4)):
+                    v = rng.choice([0, 1, 0x100, 0x010000, rng.getrandbits(8 * nb)]) & ((1 << (8 * nb)) - 1)
+                    items.append((op, [(v >> i) & 1 for i in range(8 * nb - 1, -1, -1)]))
+                trunc = None
+                if rep % 3 == 2:
+                    trunc = off + sum(len(b) for _, b in items) - rng.randrange(1, 8 * nb)
+                cases.append(mk_case(rng, items, off if off < 8 else 0, kinds[rep % 4], trunc=trunc) if off < 8 else
+                             mk_case(rng, [("u8.8", [0] * 8)] * (off // 8) + items, 0, kinds[rep % 4], trunc=None))
     # 6. mixed sequences incl. skip and bool
     nmix = 300 if tier == "quick" else 6000
     for _ in range(nmix):
